@@ -132,6 +132,12 @@ class TranslatorK(py2lean2.Translator2M):
         return None, None
 
     # ------------------------------------------------------------------------------------------ expressions
+    @staticmethod
+    def fresh(name, scope):
+        """as Translator2.fresh; a Python name made of underscores only (`_`, the conventional unused target) still
+        gets a Lean identifier"""
+        return py2lean2.Translator2.fresh(name if name.replace("_", "") else "unused", scope)
+
     def function(self, fn, arg_names, ind=2, allow_unused=()):
         """as Translator2.function; remembers where `fn` lives so that helper functions of the same module / class that
         the vocabulary has no word for can be INLINED at their call sites (`inline_helper`)"""
